@@ -106,7 +106,7 @@ def rule_dict_type(ctx: Ctx, repo: Repo) -> None:
 def rule_shrink(ctx: Ctx, repo: Repo, tier: str) -> None:
     w = f"{TY}.shrink_types"
     ctx.functions.add(w)
-    inputs = IM.shrink_inputs()
+    inputs = IM.shrink_inputs(4 if tier == "thorough" else 3)
     n_runs = 0
     for types in inputs:
         keys = set()
@@ -136,14 +136,14 @@ def rule_shrink(ctx: Ctx, repo: Repo, tier: str) -> None:
 def rule_merge(ctx: Ctx, repo: Repo, tier: str) -> None:
     w = f"{TY}.shrink_typed_dict_types"
     ctx.functions.add(w)
-    shapes = IM.td_shapes(("a", "b"))
+    shapes = IM.td_shapes(("a", "b", "c") if tier == "thorough" else ("a", "b"))
     n = 0
     combos: List[Tuple[Dict[str, str], ...]] = [(s,) for s in shapes]
     combos += list(itertools.product(shapes, repeat=2))
-    combos += list(itertools.combinations_with_replacement(shapes, 3))
+    combos += list(itertools.combinations_with_replacement(shapes, 3)) if tier != "thorough" else list(itertools.combinations_with_replacement(IM.td_shapes(("a", "b")), 3))
     for combo in combos:
         perms = set(itertools.permutations(range(len(combo))))
-        for m in (0, 1, 2, 3):
+        for m in ((0, 1, 2, 3, 4) if tier == "thorough" else (0, 1, 2, 3)):
             keys = set()
             for perm in sorted(perms):
                 tds = tuple(IM.td(i, combo[j]) for i, j in enumerate(perm))
